@@ -11,6 +11,7 @@
 using namespace skv;
 
 extern "C" long skv_tramp(void *fn, void *arg, const uint64_t *garbage);
+extern "C" { void skv_mon_fail_at(unsigned long k); void skv_mon_reset(void); int skv_mon_live(void); }
 
 struct CpuModel {
     uint32_t maxleaf = 0x16, l1edx = 0, l1ecx = 0, l7max = 0, l7ebx[3] = {0, 0, 0}, xcr0 = 7;
@@ -93,6 +94,9 @@ struct C13 : Harness {
                                               std::string("p64.init"), std::string("pm.init"), std::string("probe.vec128"), std::string("probe.vec256")));
                 Bytes g = *rc::gen::weightedOneOf<Bytes>({{3, rc::gen::container<Bytes>(80, rc::gen::arbitrary<uint8_t>())}, {1, rc::gen::just(Bytes(80, 0))}, {1, rc::gen::just(Bytes(80, 0xff))}});
                 o.set("g", g);
+                // now and then the init's allocation fails: it must report failure (C16), and - what matters here - must not
+                // change what later initialisations select
+                if (o.name.find(".init") != std::string::npos && *chance(10)) o.set("failat", 1);
                 p.push_back(o);
             }
             return p;
@@ -173,12 +177,15 @@ struct C13 : Harness {
                 kind = kind_of(op.name.substr(0, op.name.find('.')));
                 void *fn = kind == C128 ? (void *)api.skinny128_ctr_init : kind == C64 ? (void *)api.skinny64_ctr_init : kind == CM ? (void *)api.mantis_ctr_init
                          : kind == P128 ? (void *)api.skinny128_parallel_ecb_init : kind == P64 ? (void *)api.skinny64_parallel_ecb_init : (void *)api.mantis_parallel_ecb_init;
+                if (op.geti("failat")) skv_mon_fail_at(1);
                 ret = (int)skv_tramp(fn, obj, garbage);
+                skv_mon_fail_at(0);
             }
             *api.cpuid_hook = nullptr; *api.xcr0_hook = nullptr; g_cpu = nullptr;
             if (cpu.xgetbv_illegal) { res = where + "XGETBV executed on a CPU model without OSXSAVE (the instruction faults there)"; }
             else if (op.name == "probe.vec128") { if ((ret != 0) != want128) res = where + "_skinny_has_vec128() = " + std::to_string(ret) + ", expected " + std::to_string(want128); }
             else if (op.name == "probe.vec256") { if ((ret != 0) != want256) res = where + "_skinny_has_vec256() = " + std::to_string(ret) + ", expected " + std::to_string(want256) + " (garbage ECX " + std::to_string(cpu.garbage_ecx) + ")"; }
+            else if (op.geti("failat") && ret == 0) { /* allocation failed and init said so: nothing was selected */ }
             else {
                 if (ret != 1) res = where + "init returned " + std::to_string(ret);
                 else {
